@@ -15,7 +15,7 @@ RULE = ('state = (IEEE bits of _value, _defined_units) of a real quantity (both 
         'unit_value, raw_value, float, str, repr, hash, six comparisons); BFS runs until no new state appears; '
         'non-trivial = a start value whose closure has more than one state; compare part: every pair of the pool in every '
         'pair of display units')
-ASSUMPTIONS = ['start pool: three magnitudes built in every unit of every dimension (plus exactly equal pairs in different units)',
+ASSUMPTIONS = ['start pool: five magnitudes (1, 3, 0.25, -2.5, 7 - for angles more than one turn in radians) built in every unit of every dimension (plus exactly equal pairs in different units)',
                'magnitudes outside the pool are not explored; closure makes the claim hold for operation sequences of any length over the pool']
 LEVEL_TEXT = ('All display states reachable from each start value by any finite sequence of the listed operations are enumerated '
               '(closure of a finite state space), and the invariants are evaluated in each; so for the pool the property holds '
@@ -256,6 +256,6 @@ PARTS = {'closure': closure, 'compare': compare}
 
 
 def plan(tier):
-    mags = MAGS if tier == 'quick' else MAGS + [0.0, -2.5, 1e-3, 100.0]
+    mags = MAGS + [-2.5, 7.0] if tier == 'quick' else MAGS + [0.0, -2.5, 1e-3, 7.0, 100.0]       # 7 and 100 rad: more than one turn
     cl = [[dim, u, m] for dim, us in R.DIMENSIONS.items() for u in us for m in mags]
     return [('closure', cl), ('compare', list(R.DIMENSIONS))]
